@@ -132,7 +132,7 @@ def extract(path, kind, name, impl_of=None):
     return {"text": src[a:b], "line_start": line_a, "line_end": line_b, "header_offset": h - a}
 
 
-def extract_region(path, fn_name, impl_of, from_anchor, to_anchor, from_nth=0, to_nth=0):
+def extract_region(path, fn_name, impl_of, from_anchor, to_anchor, from_nth=0, to_nth=0, to_exclusive=False):
     """Whole lines of function `fn_name` from the line containing from_anchor (its from_nth-th occurrence
     inside the function) through the to_nth-th line containing to_anchor at or after it."""
     src = open(path, encoding="utf-8").read()
@@ -147,6 +147,10 @@ def extract_region(path, fn_name, impl_of, from_anchor, to_anchor, from_nth=0, t
     if len(hits2) <= to_nth:
         raise ExtractError("region end anchor %r (occurrence %d) not found after the start anchor in %s" % (to_anchor, to_nth, fn_name))
     i1 = hits2[to_nth]
+    if to_exclusive:
+        i1 -= 1
+        while i1 > i0 and lines[i1].strip() == "":
+            i1 -= 1
     text = "\n".join(lines[i0:i1 + 1])
     # the region must be brace-balanced (whole statements)
     d = 0
